@@ -357,6 +357,10 @@ func c12Run(c *verifeng.Chooser, depth, maxPeers int, bursts int) {
 					// of every batch lookup)
 					for _, opt := range []int{0, 3} {
 						opt := opt
+						if opt != 0 && batches[0].optName != "default" {
+							// (only next to a first batch without options)
+							continue
+						}
 						menu = append(menu, ev{fmt.Sprintf("Query(1 request, %s)", c12opts[opt].name), func() bool { newBatch(1, opt); return true }})
 					}
 				}
